@@ -268,6 +268,10 @@ class Model:
                 ops.append(["set3d", n])
             for n in DA_NAMES:
                 ops.append(["iadd", n])
+        # an assignment of a VIEW of the container's own buffer (a column slice, the transpose, the same bytes under
+        # another type, the whole buffer): judged like any other array
+        for how in ("cols", "T", "retype", "whole"):
+            ops.append(["setview", how])
         for o in self.others():
             ops.append(["eq", o])
         if self.kind != "phase":
@@ -344,6 +348,7 @@ class Model:
         exc = None
         name = op[0]
         val = None
+        val_before = None
         try:
             if name == "empty":
                 c.empty()
@@ -352,6 +357,14 @@ class Model:
             elif name == "set":
                 val = self.value_of(op[1])
                 c.array = val
+            elif name == "setview":
+                cur = c._array
+                if isinstance(cur, np.ndarray) and cur.ndim == 2:
+                    val = {"cols": lambda a: a[:, :2], "T": lambda a: a.T, "whole": lambda a: a[...],
+                           "retype": lambda a: a.view({8: "int64", 4: "int32", 2: "int16", 1: "int8"}[a.dtype.itemsize])
+                           }[op[1]](cur)
+                    val_before = np.array(val, copy=True)       # (a view follows its buffer: keep what was assigned)
+                    c.array = val
             elif name == "set2d":
                 val = self.value_of(op[1])
                 c.array_2d = val
@@ -450,6 +463,19 @@ class Model:
                 if exp_c != after:
                     bad("empty-wrong", f"detector.empty(reset={op[1] == 'full'}) left {describe(c._array)} in the {kind} "
                         f"bucket (before: {before})")
+        elif name == "setview":
+            if val is None:
+                if exc is not None or after != before:
+                    bad("read-changed", "nothing to assign (empty / multi-wavelength content), yet the container changed")
+            elif is_valid_assign(kind, val):
+                if exc is not None:
+                    bad("valid-rejected", f"a view of the container's own buffer with the right shape and type was rejected with "
+                        f"{type(exc).__name__}: {exc}")
+                elif canon_value(self._expected_after_assign(val_before)) != after:
+                    bad("assign-value", f"assigning the container's own content {describe(val_before)} left {describe(c._array)}")
+            elif exc is None:
+                bad("invalid-accepted", f"invalid value {describe(val)} (a view of the container's own buffer) was accepted "
+                    f"without error; container now {describe(c._array)}")
         elif name in ("set", "set2d", "update", "update_list") or (name == "iadd" and before is None) \
                 or name == "set3d" or (name == "detset" and val is not None):
             valid = self._valid_for(name, op, val)
